@@ -51,7 +51,7 @@ class Ctx:
 
     def fresh_index(self, prefix='k'):
         k = self.fresh(prefix)
-        self.pool.append(k)
+        self.add_pool(k)
         return k
 
     def add_pool(self, t):
